@@ -474,8 +474,9 @@ func c06NullOrderRun(lang string) {
 	v.Observe(out)
 	nfSchemas(out, nfByLang[lang])
 	foo, ok := out.LocateObject("p", "Foo")
-	if !ok || !foo.Type.IsStruct() || len(foo.Type.Struct.Fields) != 1 {
-		v.Assert(false, "C06: the chain lost the object or its field")
+	kept := ok && foo.Type.IsStruct() && len(foo.Type.Struct.Fields) == 1
+	v.Assert(kept, "C06: the chain lost the object or its field")
+	if !kept {
 		return
 	}
 	got := foo.Type.Struct.Fields[0].Type
